@@ -842,7 +842,9 @@ class _GroupElem(ABC):
         # Node coordinates in the (X, Y, Z) coordinate system of each element
 
         rebased_coord_e = coord_e.copy()
-        if self.dim != self.inDim:
+        # a segment is always described along its own direction (first node -> second node),
+        # also when it lies on the x-axis and points towards -x
+        if self.dim != self.inDim or self.dim == 1:
             P_e = self._Get_sysCoord_e()  # transformation matrix for each element
             # matrix used to project element's points with (x, y, z) coordinates
             # into the (X, Y, Z) coordinate system.
